@@ -74,8 +74,8 @@ def snapshot(lrn):
 class C03(Property):
     id = "C03"
     prop_modules = ["CobaVerif.Props.C03"]
-    quick_n = 240
-    thorough_n = 6000
+    quick_n = 400
+    thorough_n = 10000
     search_n = 500
     case_timeout = 120
     workers = 8
@@ -137,6 +137,11 @@ class C03(Property):
                    "mode": "product", "pe": [0, 1], "pl": [0, 1, 2], "pv": [0],
                    "runs": [{"cfg": [1, 0, 0], "how": "inproc", "sched": 0}, {"cfg": [2, 0, 0], "how": "sim", "sched": 3}]})
         return cs
+
+    def exhaustive(self, tier):
+        for c in c01.small_scope_cases():
+            c = dict(c, runs=[c["runs"][0], c["runs"][3]])
+            yield c
 
     # ---- evaluation
     def evaluate(self, case, driver):
